@@ -95,6 +95,9 @@ func (ft *ftrans) resolveCall(e *env, call *ast.CallExpr) *callInfo {
 		p.failAt(call, "%s: unsupported callee (%T)", ft.sum.key, call.Fun)
 	}
 	ci.sum = p.translate(key, call)
+	if ci.sum.fragmented {
+		p.failAt(call, "%s: call of %s, which contains a loop (unsupported)", ft.sum.key, key)
+	}
 	ci.coqFun = ci.sum.coqName
 	if ext, ok := p.cfg.externs[key]; ok {
 		ci.coqFun = ext
@@ -178,6 +181,7 @@ func (ft *ftrans) callTerm(e *env, ci *callInfo) string {
 			if lit, ok := p.litU64(a); ok && atoi(lit) <= 255 {
 				as = append(as, lit)
 			} else if id, ok := a.(*ast.Ident); ok && e.lookup(id.Name) != nil && e.lookup(id.Name).typ == "uint8" {
+				ft.noteScalarRead(e, e.lookup(id.Name))
 				as = append(as, id.Name)
 			} else {
 				p.failAt(ci.node, "%s: unsupported uint8 argument", ft.sum.key)
